@@ -138,7 +138,7 @@ def jobs(tier):
     import os
     seed = int(os.environ.get("VERIF_SEED", "0") or 0)
     js = [Job("stateless-reuse", job_stateless, dict(seed=seed), "stateless", 600)]
-    for K in (1, 2, 3) + ((4,) if tier == "thorough" else ()):
+    for K in (1, 2, 3, 4):
         js.append(Job(f"item-step-vs-reference/enc1/K{K}", c01.job_item_step, dict(K=K, with_reference=True, timeout_s=1500 if tier == "quick" else 3300),
                       "follows_documented_rule", 1700 if tier == "quick" else 3500, weight=K, optional=True))
     for K in (1, 2, 3) + ((4,) if tier == "thorough" else ()):
